@@ -36,6 +36,7 @@ def register(reg):
     A("InstanceMethodField", method="ref:function")
     A("LogLevelField", levels="ref:list")
     A("ApplicationModeField", modes="ref:list", create_helpers="bool")
+    A("Pattern", pattern="str")
     A("JsonConfigFormat", pretty="any")
     A("YamlConfigFormat", root_key="opt:str")
     A("XmlConfigFormat", root_tag="str")
